@@ -332,7 +332,19 @@ fn parse_impl(
     input: ParseStream,
 ) -> syn::Result<InputImpl> {
     let impl_token = input.parse()?;
-    let trait_path = input.parse()?;
+    let trait_path: syn::Path = input.parse()?;
+    // The generated impl is written `TraitImpl<T>`: the delegation-target trait takes no arguments of the user's
+    if let Some(arguments) = trait_path
+        .segments
+        .iter()
+        .map(|segment| &segment.arguments)
+        .find(|arguments| !arguments.is_none())
+    {
+        return Err(syn::Error::new(
+            arguments.span(),
+            "No support for generic arguments on the trait of an entraited impl block",
+        ));
+    }
     let for_token = input.parse()?;
     let self_ty = input.parse()?;
 
